@@ -15,11 +15,19 @@ pub struct Case {
     pub send: SendCase,
     /// bytes appended after each packet when presented "followed by further bytes"
     pub tail: Vec<u8>,
+    /// receiver memory slots (0 = 256): with few slots, trains in flight share slots
+    #[serde(default)]
+    pub slots: u8,
+    /// order-preserving merge of the sends' packets (empty = one send after the other)
+    #[serde(default)]
+    pub merge: Vec<u8>,
 }
 
 fn strategy(t: Tier) -> BoxedStrategy<Case> {
     let k = Knobs { with_exts: true, max_sends: 3, max_conts: t.pick(6, 10), tail_min: 7, handmade_pct: 0, tiny_bias: false };
-    (send_case(k), prop::collection::vec(any::<u8>(), 1..=64)).prop_map(|(send, tail)| Case { send, tail }).boxed()
+    (send_case(k), prop::collection::vec(any::<u8>(), 1..=64), prop_oneof![2 => Just(0u8), 1 => 1u8..=3], prop_oneof![1 => Just(vec![]), 1 => prop::collection::vec(0u8..3, 1..40)])
+        .prop_map(|(send, tail, slots, merge)| Case { send, tail, slots, merge })
+        .boxed()
 }
 
 fn check(c: &Case, st: &mut Stats) -> Result<(), String> {
@@ -34,13 +42,37 @@ fn check(c: &Case, st: &mut Stats) -> Result<(), String> {
         }
     };
     let max_pdu = c.send.sends.iter().map(|s| s.pdu.len as usize).max().unwrap_or(0) + 8;
-    let mut dec = new_simple_dec(256, 0, &[max_pdu, max_pdu, max_pdu], TableManager::all());
+    let k = if c.slots == 0 { 256 } else { c.slots as usize };
+    let mut dec = new_simple_dec(k, 0, &vec![max_pdu; (k + 2).min(5)], TableManager::all());
+    st.class_if(c.slots != 0, "few-slots");
     // label decap associated with the open train of each frag id
     let mut train_label: HashMap<u8, Lab> = HashMap::new();
     let mut nontrivial = false;
     let mut n_pk = 0;
-    for (s, log) in c.send.sends.iter().zip(logs.iter()) {
-        for pkt in &log.packets {
+    // presentation order: the sends one after the other, or an order-preserving merge of them
+    let mut order: Vec<(usize, usize)> = vec![];
+    {
+        let mut next = vec![0usize; logs.len()];
+        for m in &c.merge {
+            let t = *m as usize % logs.len().max(1);
+            if t < logs.len() && next[t] < logs[t].packets.len() {
+                order.push((t, next[t]));
+                next[t] += 1;
+            }
+        }
+        for t in 0..logs.len() {
+            while next[t] < logs[t].packets.len() {
+                order.push((t, next[t]));
+                next[t] += 1;
+            }
+        }
+        st.class_if(order.windows(2).any(|w| w[0].0 > w[1].0), "interleaved-sends");
+    }
+    for (si, pi) in order {
+        let s = &c.send.sends[si];
+        let log = &logs[si];
+        {
+            let pkt = &log.packets[pi];
             n_pk += 1;
             let p = match refcodec::parse(pkt, &mand_lookup) {
                 Ok(Parsed::Packet(p, _)) => p,
@@ -102,6 +134,8 @@ fn check(c: &Case, st: &mut Stats) -> Result<(), String> {
                             }
                         }
                         if !p.end {
+                            // the first fragment claims its slot: reassemblies of other ids in that slot are gone
+                            train_label.retain(|id, _| *id == s.frag_id || (*id as usize % k) != (s.frag_id as usize % k));
                             train_label.insert(s.frag_id, dl);
                         }
                     } else {
@@ -149,7 +183,7 @@ pub fn property() -> Property {
             fuzz_decode: Some(crate::fuzzdec::c19_case),
             strategy,
             check,
-            required_classes: &["frag-id", "label", "reuse-error", "packet-with-extensions", "has-packets"],
+            required_classes: &["frag-id", "label", "reuse-error", "packet-with-extensions", "has-packets", "few-slots", "interleaved-sends"],
         })],
     }
 }
